@@ -12,7 +12,8 @@ from .. import select as S
 LEVEL = "exploration"
 
 REFS = ["refs/heads/main", "refs/heads/dev", "refs/heads/feature/a", "refs/tags/v1", "refs/tags/release/1",
-        "refs/remotes/origin/main", "refs/notes/commits", "refs/misc/a", "refs/misc/b/c", "refs/wip/1"]
+        "refs/remotes/origin/main", "refs/notes/commits", "refs/misc/a", "refs/misc/b/c", "refs/wip/1",
+        "refs/heads/rel/1", "refs/heads/release/2", "refs/heads/release/3", "refs/misc/ab/x"]
 
 SUBSECTIONS = ["a", "ab", "a.b", "a.b.c", "Team", "team", "My Group", "x.Y.z", "q\"t", "b\\s", "été", "tags.rel", "branches.x",
                "a-b", "1", "deep.er.and.deeper", "sp ace.d ot", "a.", "x..y", "dot.dot.."]
@@ -124,6 +125,17 @@ def one_case(arg):
                       ("refgroup", b_, "include", rng.choice(["refs/heads", "refs/misc"])),
                       ("refgroup", b_, "name", "lower label")]:
                 local.insert(rng.randint(0, len(local)), e)
+        if cli_safe and rng.random() < 0.35:
+            # several entries of one group whose values are string prefixes of one another without being path prefixes: every
+            # one of them counts
+            sub = rng.choice(["pfx", "a", "Team", "tags.rel"])
+            seqs = rng.choice([[("include", "refs/heads/rel"), ("include", "refs/heads/release")],
+                               [("include", "refs/misc/a"), ("include", "refs/misc/ab")],
+                               [("include", "refs/heads"), ("exclude", "refs/heads/rel"), ("include", "refs/heads/release")],
+                               [("include", "refs/heads/release"), ("include", "refs/heads/rel")]])
+            pos = sorted(rng.sample(range(len(local) + len(seqs)), len(seqs)))
+            for (f_, v_), at in zip(seqs, pos):
+                local.insert(min(at, len(local)), ("refgroup", sub, f_, v_))
         text_local = render(local)
         used = ["local"]
         if rng.random() < 0.4:
